@@ -247,7 +247,7 @@ func TestVerif_C43(t *testing.T) {
 		}
 		shapes := mc.Pick(r,
 			[]shape{{2, 2, 2, 1}, {2, 3, 1, 0}, {3, 1, 1, 1}},
-			[]shape{{2, 3, 2, 1}, {3, 2, 2, 1}, {2, 2, 2, 2}, {3, 3, 1, 1}})
+			[]shape{{2, 3, 2, 1}, {3, 2, 2, 1}, {2, 2, 2, 2}})
 		r.Rule("all pending maps over 3 accounts with nonce-ordered lists of bounded length (per shape: la,lb,lc), each transaction drawn from " +
 			"6 (feeCap,tip) pairs {0/0,1/1,2/1,2/2,5/1,5/5} x nTimes arrival instants, x base fee {nil,0,1,3}; for every map EVERY Shift/Pop decision sequence " +
 			"until the iterator is empty (DFS); maps that differ only by swapping two accounts are enumerated once (list index of B <= that of A, of C <= that of B, " +
